@@ -13,13 +13,26 @@ import (
 // regular-expression tests are uninterpreted and the obligation is that an accepted flag set has
 // passed one of them for every resource-name component, parses as a probe type and has 0 < qps <= 1000.
 func VerifH_flags() {
-	p, o, i, d, c, pt := verifStr("project"), verifStr("opsProject"), verifStr("instance_name"), verifStr("database_name"), verifStr("instanceConfig"), verifStr("probeType")
+	// natively the strings are built so that the real regexp engine agrees with the model:
+	// "<flag>_ok" names the (uninterpreted) outcome of the regular-expression test
+	pOK, iOK, dOK, cOK := verifBool("project_ok"), verifBool("instance_name_ok"), verifBool("database_name_ok"), verifBool("instanceConfig_ok")
+	mk := func(ok bool) func() string {
+		return func() string {
+			if ok {
+				return "name-1"
+			}
+			return "bad/seg"
+		}
+	}
+	p, i, d, c := verifStrBuild("project", mk(pOK)), verifStrBuild("instance_name", mk(iOK)), verifStrBuild("database_name", mk(dOK)), verifStrBuild("instanceConfig", mk(cOK))
+	o, pt := verifStr("opsProject"), verifStr("probeType")
 	q := verifF64("qps")
 	n, ps := verifInt("numRows"), verifInt("payloadSize")
 	project, opsProject, instance_name, database_name, instanceConfig, probeType = &p, &o, &i, &d, &c, &pt
 	qps, numRows, payloadSize = &q, &n, &ps
 	errs := validateFlags()
 	verifReach("after")
+	verifAssume(verifMatched(p) == pOK && verifMatched(i) == iOK && verifMatched(d) == dOK && verifMatched(c) == cOK)
 	accepted := len(errs) == 0
 	if accepted {
 		verifReach("accepted")
@@ -45,7 +58,7 @@ func VerifH_flags() {
 
 // verifMatched: symbolically "some regular expression compiled by the code matched s" (intrinsic);
 // natively nothing to check (the real regexp engine ran).
-func verifMatched(s string) bool { return true }
+func verifMatched(s string) bool { return !strings.Contains(s, "/") }
 
 // verifSegmentsOK: natively counts path separators of the built resource names (what P7 decides
 // symbolically on the extracted literals and formats).
